@@ -632,8 +632,10 @@ def it_rev(i, it, a, p, h, t):
 
 def it_collect(i, it, a, p, hint, tf):
     target, targs = B.collect_target(i, hint, tf)
-    if target is None:
-        raise Inconclusive('collect() without inferable target type')
+    if target is None or (target not in B.COLLECT_TARGETS and target not in i.prog.structs):
+        # target not inferable locally: Vec is what the repository uses in every such place; recorded
+        V.ENG.note('collect-target-defaulted')
+        target, targs = 'Vec', []
     return B.collect_into(i, it, target, targs)
 
 
